@@ -57,6 +57,8 @@ class TVCheck:
         self.level = level
 
     def has_problem(self, r):
+        if "must_raise" in r.prog.tags:
+            return r.status != "raised"
         if r.violations:
             return True
         if r.status in self.bad_statuses:
@@ -133,6 +135,14 @@ class TVCheck:
 
     def classify(self, rep, s):
         tag = f"{s['src'][:300]} [{s['backend']}]"
+        if "must_raise" in s["tags"]:
+            if s["status"] != "raised":
+                d = self.write_simple_bundle(s)
+                rep.violation(f"query must be refused but translation returned a package (status {s['status']}) || {tag}", d)
+            else:
+                rep.obligations += 1
+                rep.discharged += 1
+            return
         if s["violations"]:
             for v in s["violations"]:
                 rep.violation(f"{v['obligation']}: {v['text']} || {tag}", v["replay"])
